@@ -198,8 +198,25 @@ fn rb_ty(a: &BinArchive, ty: &str, addr: usize) -> String {
     format!("rb={}", fin(read_ty(a, ty, addr), |v| v.to_string()).replace(' ', ":"))
 }
 
+/// Hex fields that carry strings must be valid UTF-8 (and well-formed hex); the orchestrator's shrinker
+/// cuts hex fields blindly, such a line is answered `badutf8` and judged `ok skip` by the driver.
+fn strings_ok(f: &[&str]) -> bool {
+    let ok = |s: &str| {
+        s == "-" || (s.len() % 2 == 0 && s.bytes().all(|c| c.is_ascii_hexdigit()) && String::from_utf8(unhex(s)).is_ok())
+    };
+    match f[1] {
+        "w_str" | "w_cstr" | "w_label" => f.len() > 3 && (f[3] == "~" || ok(f[3])),
+        "w_labels" => f.len() > 3 && (f[3] == "!" || f[3].split('/').all(ok)),
+        "find" | "W_str" | "W_cstr" | "W_label" => f.len() > 2 && (f[2] == "~" || ok(f[2])),
+        _ => true,
+    }
+}
+
 fn exec(st: &mut St, f: &[&str]) -> String {
     let op = f[1];
+    if !strings_ok(f) {
+        return "badutf8".to_string();
+    }
     if let Some(ty) = op.strip_prefix("r_").filter(|t| TYS.contains(t)) {
         return fin(read_ty(&st.a, ty, pu(f[2])), |v| v.to_string());
     }
